@@ -113,7 +113,7 @@ def run(tier: str) -> int:
         if mod == 'WellCost':
             replay_wellcost(res, [p for p in r['prints'] if isinstance(p, dict) and 'cost' in p])
     rng = random.Random(seed() * 18 + 18)
-    nb = 16 if tier == 'quick' else 160
+    nb = 16 if tier == 'quick' else 80
     L = Ladders()
     for k, (tag, text, p) in enumerate(gen.grid(seed() * 31 + 18, nb, resmodels=(4, 3, 4, 1), with_extras=True)):
         p = dict(p)
@@ -223,7 +223,7 @@ def run(tier: str) -> int:
     for need in ('C18_bht_gradient', 'C18_bht_depth', 'C18_tdp_drawdown', 'C18_tprod0_flow', 'C18_wellcost_depth', 'C18_npv_cost', 'C18_lc_cost'):
         if not counts.get(need):
             raise MachineryFailure(f'C18: {need} never evaluated')
-    res.cov['rule'] = ('ladders of <= 5 seeded values per varied parameter on seeded bases (quick 16, thorough 160); cost parameters sampled from '
+    res.cov['rule'] = ('ladders of <= 5 seeded values per varied parameter on seeded bases (quick 16, thorough 80); cost parameters sampled from '
                        f'{len(COST_PARAMS)} cost inputs / adjustment factors; distinct = clause x parameter x base')
     res.assumptions += ['levelized-cost ladders require every yearly energy of the sold products to be positive',
                         'well-cost ladders stay inside the 500..7000 m window', 'monotone = non-strict with 1e-9 relative slack']
